@@ -186,6 +186,17 @@ def native_enumeration(tier):
                 rows = [list(r) for r in base]
                 rows[ri][ci] = h
                 try_cid(rows, "base CID with row %d cell %d = %r" % (ri, ci, h))
+    # data format rows after field rows (legal), each with hostile values; attribute names as property names
+    for prop in ("header", "item delimiter", "quote character", "thousands separator", "allowed characters", "encoding", "location",
+                 "is valid", "valid line delimiter texts"):
+        for h in HOSTILE[:40] + [";", ".", "1", "2"]:
+            try_cid([["d", "format", "delimited"], ["f", "x"], ["d", prop, h], ["f", "y"]], "late data format row %r = %r" % (prop, h))
+    from cutplace import data as _data
+    for fmt in ("delimited", "fixed", "excel", "ods"):
+        for attr in sorted(vars(_data.DataFormat(fmt))):
+            for spelled in {attr.lstrip("_"), attr.lstrip("_").replace("_", " "), attr}:
+                try_cid([["d", "format", fmt], ["d", spelled, "x"], ["f", "x", "", "", "3" if fmt == "fixed" else ""]],
+                        "attribute name %r used as property under %s" % (spelled, fmt))
     # every data format property value, every type's rule / length / example
     props = ["allowed characters", "encoding", "escape character", "header", "item delimiter", "line delimiter",
              "quote character", "quoting", "skip initial space", "decimal separator", "thousands separator", "sheet", "format", ""]
@@ -210,6 +221,8 @@ def native_enumeration(tier):
                     try_cid([["d", "format", fmt], ["f", "x", example, "X" if t != "Constant" else "", h, t, ff.DEFAULT_RULE[t]]],
                             "%s %s field with example %r and length %r" % (fmt, t, example, h))
     for h in HOSTILE:
+        try_cid([["d", "format", "delimited"], ["f", "x", "", "", "", "Text" + h, ""]], "field type 'Text' + %r" % h)
+        try_cid([["d", "format", "delimited"], ["f", "x", "", "", "", h + "Integer", ""]], "field type %r + 'Integer'" % h)
         for check, col in (("IsUnique", 3), ("DistinctCount", 3), ("IsUnique", 2), ("IsUnique", 1)):
             row = ["c", "desc", check, "x" if check == "IsUnique" else "x < 3"]
             row[col] = h
@@ -236,8 +249,30 @@ def native_enumeration(tier):
                     rule, nvalues, type(e).__name__, e), rule=rule, values=nvalues)
                 break
     # data cells through the real callees
-    alph = {"Integer": "0123456789+-_ ", "Decimal": "NanIif+-.,eE_01 ", "DateTime": "0123.: ", "Choice": "abc, ", "RegEx": "abc(",
-            "Pattern": "a?*[", "Text": "a ", "Constant": "ab"}
+    alph = {"Integer": "0123456789+-_ %", "Decimal": "NanIif+-.,eE_01 %", "DateTime": "0123.: %", "Choice": "abc, %", "RegEx": "abc(%",
+            "Pattern": "a?*[%", "Text": "a %", "Constant": "ab%"}
+    # cells that violate a declared length and carry characters that are special in message formatting
+    for t in ff.TYPES:
+        for length in ("1...3", "2", "...1"):
+            for fmt in ("delimited", "excel"):
+                try:
+                    rule = ff.DEFAULT_RULE[t]
+                    if t == "Constant":
+                        rule, length = "ab", "2" if length != "...1" else "1...3"
+                    cid = interface.create_cid_from_string("d,format,%s\nf,x,,X,\"%s\",%s,\"%s\"\n" % (fmt, length, t, rule)) \
+                        if t != "Constant" else interface.create_cid_from_string("d,format,%s\nf,x,,,\"%s\",%s,\"%s\"\n" % (fmt, length, t, rule))
+                except errors.InterfaceError:
+                    continue
+                for cell in ("100%", "%", "%s", "%d%d", "a%", "%(x)s", "{}", "{0}", "\\", "100% sure", "%%", "%r"):
+                    n[0] += 1
+                    try:
+                        list(validio.rows(cid, [[cell]], on_error="yield")) if False else cid.field_formats[0].validated(cell)
+                    except errors.FieldValueError:
+                        pass
+                    except Exception as e:  # noqa
+                        fail("data-internal-error", "%s field (length %s, %s): validated(%r) raised %s: %s" % (
+                            t, length, fmt, cell, type(e).__name__, str(e)[:100]), type=t, cell=cell)
+                        break
     maxlen = 3 if tier == "quick" else 4
     for fmt in ("delimited", "fixed", "excel"):
         for t in ff.TYPES:
